@@ -84,9 +84,9 @@ CLAIMS = {
         note="Trusted: spec/typealgebra in_ok/out_ok. Known findings: output list items compared with the input rule (pinned by tests); safe retypes "
              "are not reported at all."),
     "C04": dict(
-        category="other", engine="rtc",
-        technique="run-time functional contract (ordered data + error multiset == reference execution algorithm) over generated operations x resolver worlds",
-        text="Bounded: for hand-written merge/fragment patterns plus a seeded generator of valid operations (aliases, same-key merging, fragments at every "
+        category="other", engine="tracecheck+rtc",
+        technique="trace contracts over every syntactic path of the executor skeleton (Engine P) + run-time functional contract (ordered data + error multiset == reference execution algorithm) over generated operations x resolver worlds",
+        text="All paths: complete_value handles a non-null wrapper before the null test, completes null to null without side effects, serialises a leaf exactly once, executes a composite value's collected sub-selection exactly once and raises only RuntimeError / TypeError itself; _handle_non_nullable_value records exactly one error for a null and returns the value unchanged; both execute_fields resolve each grouped field once, in order, under its key. Bounded: for hand-written merge/fragment patterns plus a seeded generator of valid operations (aliases, same-key merging, fragments at every "
              "placement, directives with variables, abstract types, lists, arguments) and worlds placing null / ResolverError / null list item / empty "
              "list / unexpected exception at every resolved path, both synchronous executors produce exactly the reference result; results are "
              "independent of earlier requests on the same schema object.",
